@@ -32,7 +32,8 @@ private def artimToSExp : Artim → SExp
   | .off => .sym "off" | .running => .sym "running" | .runningExpired => .sym "runningExpired"
   | .stoppedOk => .sym "stoppedOk" | .stoppedExpired => .sym "stoppedExpired"
 
-private def obs (s : St) : SExp :=
+/-- the observation of one reactor compared in lockstep with the real thread (13 fields) -/
+def dulObs (s : St) : SExp :=
   .list [.nat s.fsm, .list (s.eventQ.map .nat), .list (s.provQ.map primToSExp), SExp.ofBool s.connected,
          SExp.ofBool s.artim.expired, SExp.ofBool s.kill, SExp.ofBool s.dead, .nat s.sent.length,
          .nat (s.toUser.filter (· != .indPdata)).length, .nat s.recvPdu.length, .nat s.closes,
@@ -50,7 +51,7 @@ def dulOps (op : String) (args : List SExp) : Option SExp :=
     | some sched =>
       let s0 := if r == "T" then initRequestor else initAcceptor
       let (_, out) := sched.foldl (fun (acc : St × List SExp) st =>
-        let s' := step acc.1 st; (s', obs s' :: acc.2)) (s0, [])
+        let s' := step acc.1 st; (s', dulObs s' :: acc.2)) (s0, [])
       some (.list out.reverse)
   | "dul.runok", [.sym r, .list steps] =>
     match steps.mapM stepOfSExp with
